@@ -26,19 +26,18 @@ Proof.
   - f_equal; [apply (H 0); lia|]. apply IH. intros i Hi. apply (H (S i)). lia.
 Qed.
 
-Lemma comp_sl_upd A oA A' e id l f s' :
-  comp_sl A oA id l -> frame [] (eq (id, KSl f)) A oA A' -> sl_ok A' (oA ++ e) (id, KSl f) s' ->
+Lemma comp_sl_upd W A oA A' e id l f s' :
+  comp_sl A oA id l -> frame [] W A oA A' -> (forall i, i <> f -> ~ W (id, KSl i)) ->
+  sl_ok A' (oA ++ e) (id, KSl f) s' ->
   comp_sl A' (oA ++ e) id (upd_nth f s' l) /\
   map (sl_read A') (upd_nth f s' l) = upd_nth f (sl_read A' s') (map (sl_read A) l).
 Proof.
-  intros Hc F Hs. split.
+  intros Hc F HW Hs. split.
   - intros i. rewrite nth_upd_case. destruct (Nat.eqb_spec f i).
     + subst. destruct (Nat.ltb_spec i (length l)); simpl; [exact Hs|]. rewrite nth_overflow by lia. exact I.
-    + simpl. destruct (sl_ok_frame A oA A' e (eq (id, KSl f)) (id, KSl i) (nth i l None)); auto.
-      intros E; inversion E; congruence.
+    + simpl. destruct (sl_ok_frame A oA A' e W (id, KSl i) (nth i l None)); auto.
   - rewrite map_upd_nth. apply upd_nth_map_ext with (d := None). intros i Hi.
-    destruct (sl_ok_frame A oA A' e (eq (id, KSl f)) (id, KSl i) (nth i l None)); auto.
-    intros E; inversion E; congruence.
+    destruct (sl_ok_frame A oA A' e W (id, KSl i) (nth i l None)); auto.
 Qed.
 
 Lemma comp_mp_upd M oM M' e id l f m' :
@@ -118,6 +117,32 @@ Lemma vobj_eq a b c d e f g h i x a' b' c' g' x' :
 Proof. intros; subst; reflexivity. Qed.
 
 (* ---- a heap update that only touches the arrays tagged (id, KSl f) ---- *)
+(* W: the tags of the arrays the update may have written: (id, KSl f) and scratch arrays of id *)
+Definition fieldW (id : oid) (f : nat) (W : atag -> Prop) : Prop :=
+  (forall i, i <> f -> ~ W (id, KSl i)) /\ ~ W (id, KConds) /\ ~ W (id, KHooks) /\ (forall t, W t -> fst t = id).
+
+Lemma fieldW_eq id f : fieldW id f (eq (id, KSl f)).
+Proof. repeat split; try (intros E; inversion E; fail). - intros i N E; inversion E; congruence. - now intros t <-. Qed.
+
+Lemma sim_sl_fieldW W H ow id o f A' s' e rd :
+  lens H ow -> obj_ok H ow id o -> fieldW id f W ->
+  length (owA ow ++ e) = length A' -> sl_ok A' (owA ow ++ e) (id, KSl f) s' ->
+  sl_read A' s' = rd -> frame [] W (arrs H) (owA ow) A' ->
+  let H' := with_arrs H A' in let o' := set_sl o (upd_nth f s' (o_sl o)) in
+  lens H' (ext ow e [] [] []) /\ idframe id H ow H' /\ obj_ok H' (ext ow e [] [] []) id o' /\
+  abs_obj H' o' = vset_sl (abs_obj H o) (upd_nth f rd (v_sl (abs_obj H o))).
+Proof.
+  intros (La & Lm & Lr & Lj) [O1 O2 O3 O4 O5] (W1 & W2 & W3 & W4) L Ok Rd F H' o'.
+  destruct (comp_sl_upd W _ _ _ e _ _ _ _ O1 F W1 Ok) as [C1 E1].
+  destruct (rt_ok_frame _ _ _ _ A' (recs H) e [] W (fun _ => False) _ _ O3 F (frame_refl _ _ _ _)) as [C3 E3]; auto.
+  split; [|split; [|split]].
+  - unfold lens, ext; simpl. rewrite !app_nil_r. auto.
+  - unfold idframe, hframe; simpl. split; [eapply frame_weaken; [|exact F]; exact W4|].
+    split; [apply frame_refl|]. split; apply frame_refl.
+  - constructor; simpl; auto; rewrite ?app_nil_r; auto.
+  - rewrite !abs_obj_eq. unfold vset_sl; simpl. apply vobj_eq; auto. now rewrite E1, Rd.
+Qed.
+
 Lemma sim_sl_field H ow id o f A' s' e rd :
   lens H ow -> obj_ok H ow id o ->
   length (owA ow ++ e) = length A' -> sl_ok A' (owA ow ++ e) (id, KSl f) s' ->
@@ -125,18 +150,7 @@ Lemma sim_sl_field H ow id o f A' s' e rd :
   let H' := with_arrs H A' in let o' := set_sl o (upd_nth f s' (o_sl o)) in
   lens H' (ext ow e [] [] []) /\ idframe id H ow H' /\ obj_ok H' (ext ow e [] [] []) id o' /\
   abs_obj H' o' = vset_sl (abs_obj H o) (upd_nth f rd (v_sl (abs_obj H o))).
-Proof.
-  intros (La & Lm & Lr & Lj) [O1 O2 O3 O4 O5] L Ok Rd F H' o'.
-  destruct (comp_sl_upd _ _ _ e _ _ _ _ O1 F Ok) as [C1 E1].
-  destruct (rt_ok_frame _ _ _ _ A' (recs H) e [] (eq (id, KSl f)) (fun _ => False) _ _ O3 F (frame_refl _ _ _ _)) as [C3 E3];
-    try (intros E; inversion E; fail); auto.
-  split; [|split; [|split]].
-  - unfold lens, ext; simpl. rewrite !app_nil_r. auto.
-  - unfold idframe, hframe; simpl. split; [eapply frame_weaken; [|exact F]; intros t <-; reflexivity|].
-    split; [apply frame_refl|]. split; apply frame_refl.
-  - constructor; simpl; auto; rewrite ?app_nil_r; auto.
-  - rewrite !abs_obj_eq. unfold vset_sl; simpl. apply vobj_eq; auto. now rewrite E1, Rd.
-Qed.
+Proof. intros L O. apply sim_sl_fieldW; auto. apply fieldW_eq. Qed.
 
 Lemma sim_mp_field H ow id o f M' m' e rd :
   lens H ow -> obj_ok H ow id o ->
@@ -178,4 +192,544 @@ Proof.
     split; [eapply frame_weaken; [|exact FR]; intros t <-; reflexivity | apply frame_refl].
   - constructor; simpl; auto; rewrite ?app_nil_r; auto.
   - rewrite !abs_obj_eq. unfold vset_rt; simpl. apply vobj_eq; auto.
+Qed.
+
+(* ================= composing updates ================= *)
+Lemma frame_upd {X T} (d : X) (t : T) S ow a x :
+  nth_error ow a = Some t -> frame d (eq t) S ow (upd_nth a x S).
+Proof.
+  intros Ht. split; [now rewrite upd_nth_length|].
+  intros a0 t0 Ha0 Hne. apply nth_upd_nth_neq. intros ->. rewrite Ht in Ha0. inversion Ha0; auto.
+Qed.
+
+Lemma frame_app {X T} (d : X) (W : T -> Prop) S (ow : list T) e : length ow = length S -> frame d W S ow (S ++ e).
+Proof.
+  intros L. split; [rewrite app_length; lia|].
+  intros a t0 Ha _. apply app_nth1. rewrite <- L. eapply nth_error_lt; eauto.
+Qed.
+
+Lemma ext_ext ow a b c d a' b' c' d' :
+  ext (ext ow a b c d) a' b' c' d' = ext ow (a ++ a') (b ++ b') (c ++ c') (d ++ d').
+Proof. unfold ext; simpl. now rewrite <- !app_assoc. Qed.
+
+Lemma hframe_trans WA WM WR WJ H ow H1 a b c d H2 :
+  hframe WA WM WR WJ H ow H1 -> hframe WA WM WR WJ H1 (ext ow a b c d) H2 -> hframe WA WM WR WJ H ow H2.
+Proof.
+  intros (A1 & B1 & C1 & D1) (A2 & B2 & C2 & D2). unfold ext in *; simpl in *.
+  repeat split; eapply frame_trans; eauto.
+Qed.
+
+(* (H', o') is what an operation on object id made of (H, o): it reads as v', only cells owned by id changed *)
+Definition sim_res (id : oid) (H : heap) (ow : owners) (v' : vobj) (H' : heap) (o' : obj) : Prop :=
+  exists eA eM eR eJ,
+    lens H' (ext ow eA eM eR eJ) /\ idframe id H ow H' /\ obj_ok H' (ext ow eA eM eR eJ) id o' /\ abs_obj H' o' = v'.
+
+Lemma sim_res_trans id H ow v1 H1 o1 v2 H2 o2 :
+  sim_res id H ow v1 H1 o1 ->
+  (forall ow1, lens H1 ow1 -> obj_ok H1 ow1 id o1 -> sim_res id H1 ow1 v2 H2 o2) ->
+  sim_res id H ow v2 H2 o2.
+Proof.
+  intros (a & b & c & d & L1 & F1 & O1 & E1) K.
+  destruct (K _ L1 O1) as (a' & b' & c' & d' & L2 & F2 & O2 & E2).
+  exists (a ++ a'), (b ++ b'), (c ++ c'), (d ++ d'). rewrite <- ext_ext.
+  split; [exact L2|]. split; [|split; [exact O2|exact E2]].
+  unfold idframe in *. eapply hframe_trans; eauto.
+Qed.
+
+Lemma sim_res_refl id H ow o : lens H ow -> obj_ok H ow id o -> sim_res id H ow (abs_obj H o) H o.
+Proof.
+  intros L O. exists [], [], [], [].
+  split; [now apply lens_ext_nil|]. split; [apply idframe_refl|]. split; [now apply obj_ok_ext_nil|reflexivity].
+Qed.
+
+(* an update of the object record that moves no reference *)
+Lemma sim_res_pure id H ow o o' :
+  lens H ow -> obj_ok H ow id o ->
+  o_sl o' = o_sl o -> o_mp o' = o_mp o -> o_rt o' = o_rt o -> o_jar o' = o_jar o -> o_fact o' = o_fact o ->
+  ext_ok (owJ ow) id (o_ext o') ->
+  sim_res id H ow (abs_obj H o') H o'.
+Proof.
+  intros L [O1 O2 O3 O4 O5] E1 E2 E3 E4 E5 X.
+  apply sim_res_refl; auto. constructor; rewrite ?E1, ?E2, ?E3, ?E4, ?E5; auto.
+Qed.
+
+(* ---- an update that only touches boxes owned by id ---- *)
+Lemma sim_jars H ow id o J' e jar' fact' x' :
+  lens H ow -> obj_ok H ow id o ->
+  length (owJ ow ++ e) = length J' ->
+  frame [] (WMid id) (jars H) (owJ ow) J' ->
+  jar_ok (owJ ow ++ e) id jar' fact' -> ext_ok (owJ ow ++ e) id x' ->
+  let H' := with_jars H J' in let o' := set_ext (set_jar o jar' fact') x' in
+  sim_res id H ow (vset_ext (vset_jar (abs_obj H o) (jar_read H' jar') fact') (abs_ext J' x')) H' o'.
+Proof.
+  intros (La & Lm & Lr & Lj) [O1 O2 O3 O4 O5] L F JO XO H' o'.
+  exists [], [], [], e. split; [|split; [|split]].
+  - unfold lens, ext; simpl. rewrite !app_nil_r. auto.
+  - unfold idframe, hframe; simpl. repeat split; auto; apply F.
+  - constructor; simpl; auto; rewrite ?app_nil_r; auto.
+  - reflexivity.
+Qed.
+
+(* ================= setters ================= *)
+Lemma heap_eq A M R J A' M' R' J' : A = A' -> M = M' -> R = R' -> J = J' ->
+  {| arrs := A; maps := M; recs := R; jars := J |} = {| arrs := A'; maps := M'; recs := R'; jars := J' |}.
+Proof. intros; subst; reflexivity. Qed.
+
+(* retry setters: c.getRetryOption() then the record is rewritten as x' over the arrays A' *)
+Lemma sim_rt_set H ow id o H1 o1 r A' eA x' :
+  lens H ow -> obj_ok H ow id o -> get_retry H o = (H1, o1, r) ->
+  length (owA ow ++ eA) = length A' ->
+  frame [] (fun t => t = (id, KConds) \/ t = (id, KHooks)) (arrs H) (owA ow) A' ->
+  sl_ok A' (owA ow ++ eA) (id, KConds) (r_conds x') -> sl_ok A' (owA ow ++ eA) (id, KHooks) (r_hooks x') ->
+  sim_res id H ow
+    (vset_rt (abs_obj H o) {| vr_max := r_max x'; vr_int := r_int x';
+                              vr_conds := sl_read A' (r_conds x'); vr_hooks := sl_read A' (r_hooks x') |})
+    (with_recs (with_arrs H1 A') (upd_nth r x' (recs H1))) o1.
+Proof.
+  intros L O G LA FA Kc Kh.
+  destruct (get_retry_spec _ _ _ _ _ _ _ L O G) as (eR & LR & E1 & E2 & E3 & FR & Eo & Hr & Ok & Rv).
+  destruct L as (La & Lm & Lr & Lj).
+  assert (Ht : nth_error (owR ow ++ eR) r = Some id) by (destruct Ok as (T & _); exact T).
+  pose proof (sim_rt H ow id o A' (upd_nth r x' (recs H1)) eA eR r
+                (rt_view A' (upd_nth r x' (recs H1)) (Some r)) (conj La (conj Lm (conj Lr Lj))) O LA) as S.
+  rewrite upd_nth_length in S. specialize (S LR FA).
+  assert (FR' : frame retry0 (eq id) (recs H) (owR ow) (upd_nth r x' (recs H1))).
+  { eapply frame_trans; [eapply frame_weaken; [|exact FR]; intros t []|]. apply frame_upd. exact Ht. }
+  specialize (S FR').
+  assert (Ok' : rt_ok A' (upd_nth r x' (recs H1)) (owA ow ++ eA) (owR ow ++ eR) id (Some r)).
+  { simpl. rewrite nth_upd_nth_eq by exact Hr. auto. }
+  specialize (S Ok' eq_refl). cbv zeta in S. destruct S as (S1 & S2 & S3 & S4).
+  replace (with_recs (with_arrs H1 A') (upd_nth r x' (recs H1)))
+    with (with_recs (with_arrs H A') (upd_nth r x' (recs H1))).
+  2:{ unfold with_recs, with_arrs; simpl. apply heap_eq; auto. }
+  exists eA, [], eR, []. rewrite Eo. split; [exact S1|split; [exact S2|split; [exact S3|]]].
+  rewrite S4. f_equal. unfold rt_view, rt_read; simpl. now rewrite nth_upd_nth_eq by exact Hr.
+Qed.
+
+(* what c.getRetryOption() returns reads as the object's retry option *)
+Lemma get_retry_view H ow id o H1 o1 r :
+  lens H ow -> obj_ok H ow id o -> get_retry H o = (H1, o1, r) ->
+  let x := nth r (recs H1) retry0 in
+  arrs H1 = arrs H /\
+  sl_ok (arrs H) (owA ow) (id, KConds) (r_conds x) /\ sl_ok (arrs H) (owA ow) (id, KHooks) (r_hooks x) /\
+  v_rt (abs_obj H o) = {| vr_max := r_max x; vr_int := r_int x;
+                          vr_conds := sl_read (arrs H) (r_conds x); vr_hooks := sl_read (arrs H) (r_hooks x) |}.
+Proof.
+  intros L O G x.
+  destruct (get_retry_spec _ _ _ _ _ _ _ L O G) as (eR & LR & E1 & E2 & E3 & FR & Eo & Hr & Ok & Rv).
+  destruct Ok as (T & Kc & Kh). repeat split; auto.
+  all: try (rewrite abs_obj_eq; cbn [v_rt]; rewrite <- Rv; reflexivity).
+Qed.
+
+Lemma ext_ok_app oJ e id x : ext_ok oJ id x -> ext_ok (oJ ++ e) id x.
+Proof.
+  intros (A & B & C). unfold ext_ok, mp_ok in *.
+  destruct (e_dopt x), (e_dumper x), (e_tls x); repeat split; auto using nth_error_app_old.
+Qed.
+
+Lemma jar_ok_app oJ e id j f : jar_ok oJ id j f -> jar_ok (oJ ++ e) id j f.
+Proof. destruct j; simpl; auto. intros [A B]; auto using nth_error_app_old. Qed.
+
+Lemma abs_ext_app (J : list (list val)) oJ e id x :
+  length oJ = length J -> ext_ok oJ id x -> abs_ext (J ++ e) x = abs_ext J x.
+Proof.
+  intros L X. destruct (ext_ok_frame J oJ (J ++ e) [] (fun _ => False) id x X); auto.
+  now apply frame_app.
+Qed.
+
+Ltac vunf := unfold vset_sl, vset_mp, vset_rt, vset_chain, vset_tchain, vset_scal, vset_jar, vset_ext,
+  set_sl, set_mp, set_rt, set_chain, set_tchain, set_scal, set_jar, set_ext, abs_obj;
+  cbn [v_sl v_mp v_rt v_chain v_tchain v_scal v_jar v_fact v_par v_ext
+       o_sl o_mp o_rt o_chain o_tchain o_scal o_jar o_fact o_par o_ext].
+
+Lemma sim_intro id H ow v' H' o' eA eM eR eJ :
+  lens H' (ext ow eA eM eR eJ) /\ idframe id H ow H' /\ obj_ok H' (ext ow eA eM eR eJ) id o' /\ abs_obj H' o' = v' ->
+  sim_res id H ow v' H' o'.
+Proof. intros K. exists eA, eM, eR, eJ. exact K. Qed.
+
+Lemma sim_res_eq id H ow v v' H' o' : sim_res id H ow v H' o' -> v = v' -> sim_res id H ow v' H' o'.
+Proof. now intros K <-. Qed.
+
+(* the six retry setters share this shape *)
+Lemma sim_retry_case H ow id o H1 o1 r A' eA x' vr Hres :
+  lens H ow -> obj_ok H ow id o -> get_retry H o = (H1, o1, r) ->
+  length (owA ow ++ eA) = length A' ->
+  frame [] (fun t => t = (id, KConds) \/ t = (id, KHooks)) (arrs H) (owA ow) A' ->
+  sl_ok A' (owA ow ++ eA) (id, KConds) (r_conds x') -> sl_ok A' (owA ow ++ eA) (id, KHooks) (r_hooks x') ->
+  Hres = with_recs (with_arrs H1 A') (upd_nth r x' (recs H1)) ->
+  vr = {| vr_max := r_max x'; vr_int := r_int x'; vr_conds := sl_read A' (r_conds x'); vr_hooks := sl_read A' (r_hooks x') |} ->
+  sim_res id H ow (vset_rt (abs_obj H o) vr) Hres o1.
+Proof. intros L O G LA FA Kc Kh -> ->. eapply sim_rt_set; eauto. Qed.
+
+Lemma sim_res_chain id H ow v H' o' c : sim_res id H ow v H' o' -> sim_res id H ow (vset_chain v c) H' (set_chain o' c).
+Proof.
+  intros (a & b & c0 & d & L & F & [O1 O2 O3 O4 O5] & E). exists a, b, c0, d.
+  split; [exact L|split; [exact F|split; [constructor; assumption|]]]. rewrite <- E. reflexivity.
+Qed.
+Lemma sim_res_tchain id H ow v H' o' c : sim_res id H ow v H' o' -> sim_res id H ow (vset_tchain v c) H' (set_tchain o' c).
+Proof.
+  intros (a & b & c0 & d & L & F & [O1 O2 O3 O4 O5] & E). exists a, b, c0, d.
+  split; [exact L|split; [exact F|split; [constructor; assumption|]]]. rewrite <- E. reflexivity.
+Qed.
+
+(* WrapRoundTripFunc: the wrappers are first collected in a fresh slice ... *)
+Lemma sim_wrap_first grow H ow id o f vs A1 w :
+  lens H ow -> obj_ok H ow id o -> sl_build grow (arrs H) None vs = (A1, w) ->
+  sim_res id H ow (vset_sl (abs_obj H o) (upd_nth f vs (v_sl (abs_obj H o)))) (with_arrs H A1) (set_sl o (upd_nth f w (o_sl o))).
+Proof.
+  intros L O E. pose proof L as (La & _).
+  destruct (sl_build_spec grow (id, KSl f) vs _ (owA ow) None _ _ La I E) as (e & L1 & K1 & R1 & F1).
+  eapply sim_intro. exact (sim_sl_field H ow id o f A1 w e _ L O L1 K1 R1 F1).
+Qed.
+
+(* ... which is adopted by the first call and appended to the registered ones by later calls *)
+Lemma sim_wrap_more grow H ow id o f vs A1 w A2 s' :
+  lens H ow -> obj_ok H ow id o -> sl_build grow (arrs H) None vs = (A1, w) ->
+  sl_append grow A1 (nth f (o_sl o) None) vs = (A2, s') ->
+  sim_res id H ow (vset_sl (abs_obj H o) (upd_nth f (nth f (v_sl (abs_obj H o)) [] ++ vs) (v_sl (abs_obj H o))))
+    (with_arrs H A2) (set_sl o (upd_nth f s' (o_sl o))).
+Proof.
+  intros L O E1 E2. pose proof L as (La & _). pose proof O as [O1 _ _ _ _].
+  set (tmp := (id, KTmp)).
+  destruct (sl_build_spec grow tmp vs _ (owA ow) None _ _ La I E1) as (e1 & L1 & K1 & R1 & F1).
+  assert (NE : ~ tmp = (id, KSl f)) by (unfold tmp; intros X; inversion X).
+  destruct (sl_ok_frame _ _ _ e1 _ _ _ (O1 f) NE F1) as [Kf Rf].
+  destruct (sl_append_spec _ _ _ (id, KSl f) _ _ _ _ L1 Kf E2) as (e2 & L2 & K2 & R2 & F2).
+  set (W := fun t : atag => t = tmp \/ t = (id, KSl f)).
+  assert (FW : frame [] W (arrs H) (owA ow) A2).
+  { eapply frame_trans; [eapply frame_weaken; [|exact F1]|eapply frame_weaken; [|exact F2]]; unfold W; intros t <-; auto. }
+  assert (HW : fieldW id f W).
+  { unfold W, tmp. repeat split.
+    - intros i N [X|X]; inversion X; congruence.
+    - intros [X|X]; inversion X.
+    - intros [X|X]; inversion X.
+    - intros t [-> | ->]; reflexivity. }
+  rewrite <- app_assoc in L2, K2.
+  eapply sim_res_eq; [eapply sim_intro; exact (sim_sl_fieldW W H ow id o f A2 s' (e1 ++ e2) _ L O HW L2 K2 R2 FW)|].
+  rewrite Rf. cbn [abs_obj v_sl]. now rewrite sl_read_nth.
+Qed.
+
+(* ---- boxes ---- *)
+Lemma bx_get_upd_spec (J : list (list val)) oJ t p d f J1 a :
+  length oJ = length J -> mp_ok oJ t p -> bx_get J p d = (J1, a) ->
+  exists e, length (oJ ++ e) = length (bx_upd J1 a f) /\ nth_error (oJ ++ e) a = Some t /\
+            nth a (bx_upd J1 a f) [] = f (odflt (bx_read J p) d) /\
+            frame [] (eq t) J oJ (bx_upd J1 a f) /\
+            (forall b, b <> a -> b < length J -> nth b (bx_upd J1 a f) [] = nth b J []) /\
+            (forall b, p = None -> b < length J -> b <> a).
+Proof.
+  intros L Ok G. unfold bx_get in G. destruct p as [a0|]; inversion G; subst J1 a; clear G; unfold bx_upd.
+  - simpl in Ok. pose proof (nth_error_lt _ _ _ Ok) as Ha. rewrite L in Ha.
+    exists []. rewrite app_nil_r, upd_nth_length. repeat split; auto.
+    + now rewrite nth_upd_nth_eq.
+    + rewrite upd_nth_length; auto.
+    + intros b t0 Hb Hne. apply nth_upd_nth_neq. intros ->. rewrite Ok in Hb. inversion Hb; auto.
+    + intros b N _. apply nth_upd_nth_neq. congruence.
+    + discriminate.
+  - exists [t]. rewrite upd_nth_length, !app_length, L. simpl. repeat split; auto.
+    + rewrite <- L. apply nth_error_app_new.
+    + rewrite nth_upd_nth_eq by (rewrite app_length; simpl; lia). now rewrite nth_app_new.
+    + rewrite upd_nth_length, app_length; lia.
+    + intros b t0 Hb _. apply nth_error_lt in Hb. rewrite L in Hb.
+      rewrite nth_upd_nth_neq by lia. now apply app_nth1.
+    + intros b N Hb. rewrite nth_upd_nth_neq by congruence. now apply app_nth1.
+    + intros b _ Hb. lia.
+Qed.
+
+Lemma bx_new_spec (J : list (list val)) (oJ : list mtag) t l :
+  length oJ = length J ->
+  length (oJ ++ [t]) = length (J ++ [l]) /\ nth_error (oJ ++ [t]) (length J) = Some t /\
+  nth (length J) (J ++ [l]) [] = l /\ frame [] (fun _ : mtag => False) J oJ (J ++ [l]).
+Proof.
+  intros L. rewrite !app_length, L. simpl. repeat split; auto.
+  - rewrite <- L. apply nth_error_app_new.
+  - apply nth_app_new.
+  - rewrite app_length; lia.
+  - intros b t0 Hb _. apply nth_error_lt in Hb. rewrite L in Hb. now apply app_nth1.
+Qed.
+
+Lemma obj_eta o : set_ext (set_jar o (o_jar o) (o_fact o)) (o_ext o) = o.
+Proof. destruct o; reflexivity. Qed.
+
+Lemma opn_eqb_refl a : opn_eqb (Some a) (Some a) = true.
+Proof. simpl. apply Nat.eqb_refl. Qed.
+
+Lemma WMid_eq id k : forall t : mtag, (id, k) = t -> WMid id t.
+Proof. intros t <-. reflexivity. Qed.
+
+(* an update of the *DumpOptions / *tls.Config boxes of id; the cookie jar is not touched *)
+Lemma sim_ext H ow id o J' e x' vx :
+  lens H ow -> obj_ok H ow id o -> length (owJ ow ++ e) = length J' ->
+  frame [] (fun t => t = (id, 1) \/ t = (id, 2)) (jars H) (owJ ow) J' ->
+  ext_ok (owJ ow ++ e) id x' -> abs_ext J' x' = vx ->
+  sim_res id H ow (vset_ext (abs_obj H o) vx) (with_jars H J') (set_ext o x').
+Proof.
+  intros L O L1 F X E. pose proof O as [O1 O2 O3 O4 O5].
+  eapply sim_res_eq.
+  - apply (sim_jars H ow id o J' e (o_jar o) (o_fact o) x'); auto.
+    + eapply frame_weaken; [|exact F]. intros t [-> | ->]; reflexivity.
+    + now apply jar_ok_app.
+  - destruct (jar_ok_frame _ _ _ e _ _ _ _ O4 F) as [_ EJ]; [intros [X0|X0]; inversion X0|].
+    rewrite E.
+    change (jar_read (with_jars H J') (o_jar o)) with (match o_jar o with None => None | Some a => Some (nth a J' []) end).
+    rewrite EJ. reflexivity.
+Qed.
+
+Lemma frame12_of id k (J : list (list val)) oJ J' : (k = 1 \/ k = 2) ->
+  frame [] (eq (id, k)) J oJ J' -> frame [] (fun t : mtag => t = (id, 1) \/ t = (id, 2)) J oJ J'.
+Proof. intros K F. eapply frame_weaken; [|exact F]. intros t <-. destruct K as [-> | ->]; auto. Qed.
+
+Lemma frame12_none id (J : list (list val)) oJ J' :
+  frame [] (fun _ : mtag => False) J oJ J' -> frame [] (fun t : mtag => t = (id, 1) \/ t = (id, 2)) J oJ J'.
+Proof. intros F. eapply frame_weaken; [|exact F]. intros t []. Qed.
+
+Lemma apply_setter_sim grow H ow id o s H' o' :
+  lens H ow -> obj_ok H ow id o -> setter_nojar s ->
+  apply_setter grow H o s = (H', o') ->
+  sim_res id H ow (vapply (abs_obj H o) s) H' o'.
+Proof.
+  intros L O NJ Hs. pose proof L as (La & Lm & Lr & Lj). pose proof O as [O1 O2 O3 O4 O5].
+  destruct s; cbn [apply_setter] in Hs.
+  - (* SAppend *)
+    destruct (sl_append grow (arrs H) (nth f (o_sl o) None) vs) as [A s'] eqn:E. inversion Hs; subst H' o'; clear Hs.
+    destruct (sl_append_spec _ _ (owA ow) (id, KSl f) _ _ _ _ La (O1 f) E) as (e & L1 & K1 & R1 & F1).
+    eapply sim_res_eq; [eapply sim_intro; exact (sim_sl_field H ow id o f A s' e _ L O L1 K1 R1 F1)|].
+    cbn [vapply]. now rewrite <- sl_read_nth.
+  - (* SClearCookies *)
+    assert (SA : sim_res id H ow (vset_sl (abs_obj H o) (upd_nth F_COOKIES [] (v_sl (abs_obj H o)))) H
+                   (set_sl o (upd_nth F_COOKIES None (o_sl o)))).
+    { destruct (comp_sl_upd (fun _ => False) (arrs H) (owA ow) (arrs H) [] id (o_sl o) F_COOKIES None O1
+                  (frame_refl _ _ _ _) (fun _ _ x => x) I) as [C1 E1].
+      exists [], [], [], []. split; [now apply lens_ext_nil|]. split; [apply idframe_refl|]. split.
+      - constructor; unfold ext; cbn [owA owM owR owJ set_sl o_sl o_mp o_rt o_jar o_fact o_ext]; rewrite ?app_nil_r; auto.
+        now rewrite app_nil_r in C1.
+      - rewrite !abs_obj_eq. unfold vset_sl, set_sl. cbn [v_sl v_mp v_rt v_chain v_tchain v_scal v_jar v_fact v_par v_ext
+          o_sl o_mp o_rt o_chain o_tchain o_scal o_jar o_fact o_par o_ext]. apply vobj_eq; auto. }
+    cbn [vapply]. replace (v_fact (abs_obj H o)) with (o_fact o) by reflexivity.
+    destruct (o_fact o) eqn:EF; injection Hs as <- <-; [|exact SA].
+    pose proof SA as (? & ? & ? & ? & _ & _ & _ & EA1).
+    eapply sim_res_trans; [exact SA|]. intros ow1 Lw1 Ow1. pose proof Lw1 as (_ & _ & _ & Lj1). pose proof Ow1 as [_ _ _ _ Q5].
+    destruct (bx_new_spec (jars H) (owJ ow1) (id, 0) [] Lj1) as (L1 & T1 & R1 & F1).
+    eapply sim_res_eq.
+    + apply (sim_jars H ow1 id (set_sl o (upd_nth F_COOKIES None (o_sl o))) (jars H ++ [[]]) [(id, 0)] (Some (length (jars H))) true (o_ext o)); auto.
+      * eapply frame_weaken; [|exact F1]. intros t [].
+      * simpl. auto.
+      * now apply ext_ok_app.
+    + cbn [jar_read with_jars jars]. rewrite R1, (abs_ext_app _ (owJ ow1) _ id) by auto. rewrite EA1. reflexivity.
+  - (* SMapSet *)
+    destruct (mp_update (maps H) (nth f (o_mp o) None) k (fun _ => [v])) as [M m'] eqn:E. inversion Hs; subst H' o'; clear Hs.
+    destruct (mp_update_spec _ (owM ow) (id, f) _ _ _ _ _ Lm (O2 f) E) as (e & L1 & K1 & R1 & F1).
+    eapply sim_res_eq; [eapply sim_intro; exact (sim_mp_field H ow id o f M m' e _ L O L1 K1 R1 F1)|].
+    cbn [vapply]. now rewrite <- mp_read_nth.
+  - (* SMapAdd *)
+    destruct (mp_update (maps H) (nth f (o_mp o) None) k (fun old => old ++ [v])) as [M m'] eqn:E. inversion Hs; subst H' o'; clear Hs.
+    destruct (mp_update_spec _ (owM ow) (id, f) _ _ _ _ _ Lm (O2 f) E) as (e & L1 & K1 & R1 & F1).
+    eapply sim_res_eq; [eapply sim_intro; exact (sim_mp_field H ow id o f M m' e _ L O L1 K1 R1 F1)|].
+    cbn [vapply]. now rewrite <- mp_read_nth.
+  - (* SRetryCount *)
+    destruct (get_retry H o) as [[H1 o1] r] eqn:G. inversion Hs; subst H' o'; clear Hs.
+    destruct (get_retry_view _ _ _ _ _ _ _ L O G) as (EA & Kc & Kh & Vr).
+    cbn [vapply]. rewrite Vr. cbn [vr_max vr_int vr_conds vr_hooks].
+    eapply (sim_retry_case H ow id o H1 o1 r (arrs H) [] {| r_max := n; r_int := r_int (nth r (recs H1) retry0); r_conds := r_conds (nth r (recs H1) retry0); r_hooks := r_hooks (nth r (recs H1) retry0) |}); eauto; rewrite ?app_nil_r; auto.
+    + apply frame_refl.
+    + unfold rec_upd, with_recs, with_arrs; cbn. apply heap_eq; auto.
+  - (* SRetryInterval *)
+    destruct (get_retry H o) as [[H1 o1] r] eqn:G. inversion Hs; subst H' o'; clear Hs.
+    destruct (get_retry_view _ _ _ _ _ _ _ L O G) as (EA & Kc & Kh & Vr).
+    cbn [vapply]. rewrite Vr. cbn [vr_max vr_int vr_conds vr_hooks].
+    eapply (sim_retry_case H ow id o H1 o1 r (arrs H) [] {| r_max := r_max (nth r (recs H1) retry0); r_int := x; r_conds := r_conds (nth r (recs H1) retry0); r_hooks := r_hooks (nth r (recs H1) retry0) |}); eauto; rewrite ?app_nil_r; auto.
+    + apply frame_refl.
+    + unfold rec_upd, with_recs, with_arrs; cbn. apply heap_eq; auto.
+  - (* SRetrySetHook *)
+    destruct (get_retry H o) as [[H1 o1] r] eqn:G.
+    destruct (get_retry_view _ _ _ _ _ _ _ L O G) as (EA & Kc & Kh & Vr).
+    destruct (sl_lit (arrs H1) [h]) as [A s'] eqn:E. inversion Hs; subst H' o'; clear Hs. rewrite EA in E.
+    destruct (sl_lit_spec _ (owA ow) (id, KHooks) _ _ _ La E) as (L1 & K1 & R1 & F1).
+    destruct (sl_ok_frame _ _ _ [(id, KHooks)] _ _ _ Kc (fun x : False => x) F1) as [Kc' Rc].
+    cbn [vapply]. rewrite Vr. cbn [vr_max vr_int vr_conds vr_hooks].
+    eapply (sim_retry_case H ow id o H1 o1 r A [(id, KHooks)] {| r_max := r_max (nth r (recs H1) retry0); r_int := r_int (nth r (recs H1) retry0); r_conds := r_conds (nth r (recs H1) retry0); r_hooks := s' |}); eauto.
+    + eapply frame_weaken; [|exact F1]. intros t [].
+    + cbn [r_max r_int r_conds r_hooks]. now rewrite Rc, R1.
+  - (* SRetryAddHook *)
+    destruct (get_retry H o) as [[H1 o1] r] eqn:G.
+    destruct (get_retry_view _ _ _ _ _ _ _ L O G) as (EA & Kc & Kh & Vr).
+    destruct (sl_append grow (arrs H1) (r_hooks (nth r (recs H1) retry0)) [h]) as [A s'] eqn:E.
+    inversion Hs; subst H' o'; clear Hs. rewrite EA in E.
+    destruct (sl_append_spec _ _ (owA ow) (id, KHooks) _ _ _ _ La Kh E) as (e & L1 & K1 & R1 & F1).
+    assert (NE : (id, KHooks) <> (id, KConds)) by congruence.
+    destruct (sl_ok_frame _ _ _ e _ _ _ Kc NE F1) as [Kc' Rc].
+    cbn [vapply]. rewrite Vr. cbn [vr_max vr_int vr_conds vr_hooks].
+    eapply (sim_retry_case H ow id o H1 o1 r A e {| r_max := r_max (nth r (recs H1) retry0); r_int := r_int (nth r (recs H1) retry0); r_conds := r_conds (nth r (recs H1) retry0); r_hooks := s' |}); eauto.
+    + eapply frame_weaken; [|exact F1]. intros t <-; auto.
+    + cbn [r_max r_int r_conds r_hooks]. now rewrite Rc, R1.
+  - (* SRetrySetCond *)
+    destruct (get_retry H o) as [[H1 o1] r] eqn:G.
+    destruct (get_retry_view _ _ _ _ _ _ _ L O G) as (EA & Kc & Kh & Vr).
+    destruct (sl_lit (arrs H1) [c]) as [A s'] eqn:E. inversion Hs; subst H' o'; clear Hs. rewrite EA in E.
+    destruct (sl_lit_spec _ (owA ow) (id, KConds) _ _ _ La E) as (L1 & K1 & R1 & F1).
+    destruct (sl_ok_frame _ _ _ [(id, KConds)] _ _ _ Kh (fun x : False => x) F1) as [Kh' Rh].
+    cbn [vapply]. rewrite Vr. cbn [vr_max vr_int vr_conds vr_hooks].
+    eapply (sim_retry_case H ow id o H1 o1 r A [(id, KConds)] {| r_max := r_max (nth r (recs H1) retry0); r_int := r_int (nth r (recs H1) retry0); r_conds := s'; r_hooks := r_hooks (nth r (recs H1) retry0) |}); eauto.
+    + eapply frame_weaken; [|exact F1]. intros t [].
+    + cbn [r_max r_int r_conds r_hooks]. now rewrite Rh, R1.
+  - (* SRetryAddCond *)
+    destruct (get_retry H o) as [[H1 o1] r] eqn:G.
+    destruct (get_retry_view _ _ _ _ _ _ _ L O G) as (EA & Kc & Kh & Vr).
+    destruct (sl_append grow (arrs H1) (r_conds (nth r (recs H1) retry0)) [c]) as [A s'] eqn:E.
+    inversion Hs; subst H' o'; clear Hs. rewrite EA in E.
+    destruct (sl_append_spec _ _ (owA ow) (id, KConds) _ _ _ _ La Kc E) as (e & L1 & K1 & R1 & F1).
+    assert (NE : (id, KConds) <> (id, KHooks)) by congruence.
+    destruct (sl_ok_frame _ _ _ e _ _ _ Kh NE F1) as [Kh' Rh].
+    cbn [vapply]. rewrite Vr. cbn [vr_max vr_int vr_conds vr_hooks].
+    eapply (sim_retry_case H ow id o H1 o1 r A e {| r_max := r_max (nth r (recs H1) retry0); r_int := r_int (nth r (recs H1) retry0); r_conds := s'; r_hooks := r_hooks (nth r (recs H1) retry0) |}); eauto.
+    + eapply frame_weaken; [|exact F1]. intros t <-; auto.
+    + cbn [r_max r_int r_conds r_hooks]. now rewrite Rh, R1.
+  - (* SScal *)
+    inversion Hs; subst H' o'; clear Hs.
+    eapply sim_res_eq; [apply (sim_res_pure id H ow o (set_scal o (nset k v (o_scal o)))); auto|reflexivity].
+  - (* SWrap *)
+    destruct vs as [|v0 vs0]; [inversion Hs; subst; now apply sim_res_refl|].
+    cbv iota in Hs. cbn [vapply]. remember (v0 :: vs0) as vs eqn:Evs. clear Evs.
+    destruct (sl_build grow (arrs H) None vs) as [A1 w] eqn:E1.
+    replace (v_chain (abs_obj H o)) with (o_chain o) by reflexivity.
+    destruct (o_chain o) as [ch|] eqn:EC.
+    + destruct (sl_append grow A1 (nth F_RTW (o_sl o) None) vs) as [A2 s'] eqn:E2.
+      injection Hs as <- <-.
+      apply sim_res_chain. apply (sim_wrap_more grow H ow id o F_RTW vs A1 w A2 s'); auto.
+    + injection Hs as <- <-.
+      apply sim_res_chain. apply (sim_wrap_first grow H ow id o F_RTW vs A1 w); auto.
+  - (* STWrap *)
+    destruct vs as [|v0 vs0]; [inversion Hs; subst; now apply sim_res_refl|].
+    cbv iota in Hs. cbn [vapply]. remember (v0 :: vs0) as vs eqn:Evs. clear Evs.
+    destruct (sl_build grow (arrs H) None vs) as [A1 w] eqn:E1.
+    replace (v_tchain (abs_obj H o)) with (o_tchain o) by reflexivity.
+    destruct (o_tchain o) as [ch|] eqn:EC.
+    + destruct (sl_append grow A1 (nth F_TRW (o_sl o) None) vs) as [A2 s'] eqn:E2.
+      injection Hs as <- <-.
+      apply sim_res_tchain. apply (sim_wrap_more grow H ow id o F_TRW vs A1 w A2 s'); auto.
+    + injection Hs as <- <-.
+      apply sim_res_tchain. apply (sim_wrap_first grow H ow id o F_TRW vs A1 w); auto.
+  - (* SJarFactory *)
+    inversion Hs; subst H' o'; clear Hs.
+    destruct (bx_new_spec (jars H) (owJ ow) (id, 0) [] Lj) as (L1 & T1 & R1 & F1).
+    eapply sim_res_eq.
+    + apply (sim_jars H ow id o (jars H ++ [[]]) [(id, 0)] (Some (length (jars H))) true (o_ext o)); auto.
+      * eapply frame_weaken; [|exact F1]. intros t [].
+      * simpl. auto.
+      * now apply ext_ok_app.
+    + cbn [jar_read with_jars jars]. rewrite R1, (abs_ext_app _ (owJ ow) _ id) by auto. reflexivity.
+  - (* SJarPlain *) exfalso. apply NJ. reflexivity.
+  - (* SJarStore *)
+    destruct (o_jar o) as [j|] eqn:EJ.
+    2:{ inversion Hs; subst. eapply sim_res_eq; [now apply sim_res_refl|].
+        cbn [vapply]. replace (v_jar (abs_obj H' o')) with (jar_read H' (o_jar o')) by reflexivity. now rewrite EJ. }
+    inversion Hs; subst H' o'; clear Hs.
+    simpl in O4. destruct O4 as [Tj Fj]. pose proof (nth_error_lt _ _ _ Tj) as Hj. rewrite Lj in Hj.
+    rewrite <- (obj_eta o) at 2. rewrite EJ.
+    assert (F1 : frame [] (eq (id, 0)) (jars H) (owJ ow) (upd_nth j (nth j (jars H) [] ++ [ck]) (jars H))) by now apply frame_upd.
+    eapply sim_res_eq.
+    + apply (sim_jars H ow id o _ [] (Some j) (o_fact o) (o_ext o)); auto.
+      * now rewrite app_nil_r, upd_nth_length.
+      * eapply frame_weaken; [|exact F1]. apply WMid_eq.
+      * rewrite app_nil_r. simpl. auto.
+      * now rewrite app_nil_r.
+    + cbn [jar_read with_jars jars vapply]. rewrite nth_upd_nth_eq by exact Hj.
+      destruct (ext_ok_frame _ _ _ [] (eq (id, 0)) id _ O5 F1) as [_ EX]; try (intros X; inversion X; fail).
+      rewrite EX. vunf. cbn [jar_read]. rewrite EJ. reflexivity.
+  - (* SSliceSet *)
+    destruct (sl_lit (arrs H) vs) as [A s'] eqn:E. injection Hs as <- <-.
+    destruct (sl_lit_spec _ (owA ow) (id, KSl f) _ _ _ La E) as (L1 & K1 & R1 & F1).
+    assert (HW : fieldW id f (fun _ : atag => False)) by (repeat split; tauto).
+    eapply sim_intro. exact (sim_sl_fieldW _ H ow id o f A s' [(id, KSl f)] vs L O HW L1 K1 R1 F1).
+  - (* STlsEdit *)
+    destruct O5 as (X1 & X2 & X3).
+    destruct (bx_get (jars H) (e_tls (o_ext o)) TLS0) as [J1 a] eqn:G. injection Hs as <- <-.
+    destruct (bx_get_upd_spec _ (owJ ow) (id, 2) _ TLS0 (apply_edits es) _ _ Lj X3 G) as (e & L1 & T1 & R1 & F1 & _ & _).
+    assert (N12 : (id, 2) <> (id, 1)) by congruence.
+    destruct (bx_ok_frame _ _ _ e _ _ _ X1 F1 N12) as (A1 & B1 & _).
+    destruct (bx_ok_frame _ _ _ e _ _ _ X2 F1 N12) as (A2 & _ & C2).
+    cbn [vapply].
+    apply (sim_ext H ow id o _ e); auto.
+    + apply (frame12_of id 2); auto.
+    + repeat split; auto.
+    + cbn [abs_obj v_ext]. unfold abs_ext, xset_tls, set_tls. cbn [e_dopt e_dumper e_tls x_dopt x_dumper x_tls bx_read].
+      rewrite B1, R1. f_equal. destruct (e_dumper (o_ext o)) as [b|]; auto. now rewrite (C2 b eq_refl).
+  - (* STlsNew *)
+    destruct O5 as (X1 & X2 & X3). injection Hs as <- <-.
+    destruct (bx_new_spec (jars H) (owJ ow) (id, 2) l Lj) as (L1 & T1 & R1 & F1).
+    destruct (bx_ok_frame _ _ _ [(id, 2)] _ _ _ X1 F1 (fun x : False => x)) as (A1 & B1 & _).
+    destruct (bx_ok_frame _ _ _ [(id, 2)] _ _ _ X2 F1 (fun x : False => x)) as (A2 & _ & C2).
+    cbn [vapply].
+    apply (sim_ext H ow id o _ [(id, 2)]); auto.
+    + now apply frame12_none.
+    + repeat split; auto.
+    + cbn [abs_obj v_ext]. unfold abs_ext, xset_tls, set_tls. cbn [e_dopt e_dumper e_tls x_dopt x_dumper x_tls bx_read].
+      rewrite B1, R1. f_equal. destruct (e_dumper (o_ext o)) as [b|]; auto. now rewrite (C2 b eq_refl).
+  - (* SDumpAll *)
+    destruct O5 as (X1 & X2 & X3). cbn [vapply].
+    replace (x_dumper (v_ext (abs_obj H o))) with
+      (match e_dumper (o_ext o) with None => DOff | Some b => if opn_eqb (e_dopt (o_ext o)) (Some b) then DLinked else DOwn (nth b (jars H) []) end)
+      by reflexivity.
+    destruct (e_dumper (o_ext o)) as [b|] eqn:ED.
+    { injection Hs as <- <-. eapply sim_res_eq; [now apply sim_res_refl|]. destruct (opn_eqb _ _); reflexivity. }
+    destruct (e_dopt (o_ext o)) as [a0|] eqn:EDo; cbn [bx_get] in Hs; injection Hs as <- <-.
+    + apply (sim_ext H ow id o (jars H) []); auto.
+      * now rewrite app_nil_r.
+      * apply frame_refl.
+      * rewrite app_nil_r. repeat split; auto.
+      * cbn [abs_obj v_ext]. unfold abs_ext, xset_dumper, xset_dopt, set_dumper, set_dopt.
+        cbn [e_dopt e_dumper e_tls x_dopt x_dumper x_tls bx_read odflt]. rewrite EDo, opn_eqb_refl. reflexivity.
+    + destruct (bx_new_spec (jars H) (owJ ow) (id, 1) DUMP0 Lj) as (L1 & T1 & R1 & F1).
+      destruct (bx_ok_frame _ _ _ [(id, 1)] _ _ _ X3 F1 (fun x : False => x)) as (A3 & B3 & _).
+      apply (sim_ext H ow id o _ [(id, 1)]); auto.
+      * now apply frame12_none.
+      * repeat split; auto.
+      * cbn [abs_obj v_ext]. unfold abs_ext, xset_dumper, xset_dopt, set_dumper, set_dopt.
+        cbn [e_dopt e_dumper e_tls x_dopt x_dumper x_tls bx_read odflt]. rewrite EDo, opn_eqb_refl, R1, B3. reflexivity.
+  - (* SDumpEnable *)
+    destruct O5 as (X1 & X2 & X3). cbn [vapply].
+    destruct (bx_get (jars H) (e_dopt (o_ext o)) DUMP0) as [J1 a] eqn:G. injection Hs as <- <-.
+    destruct (bx_get_upd_spec _ (owJ ow) (id, 1) _ DUMP0 (apply_edits es) _ _ Lj X1 G) as (e & L1 & T1 & R1 & F1 & Nb & Nn).
+    assert (N12 : (id, 1) <> (id, 2)) by congruence.
+    destruct (bx_ok_frame _ _ _ e _ _ _ X3 F1 N12) as (A3 & B3 & _).
+    apply (sim_ext H ow id o _ e); auto.
+    + apply (frame12_of id 1); auto.
+    + repeat split; auto. cbn [set_dumper set_dopt e_dumper e_dopt].
+      destruct (e_dumper (o_ext o)) as [b|]; simpl; auto using nth_error_app_old.
+    + cbn [abs_obj v_ext]. unfold abs_ext, xset_dumper, xset_dopt, set_dumper, set_dopt.
+      cbn [e_dopt e_dumper e_tls x_dopt x_dumper x_tls bx_read]. rewrite R1, B3. f_equal.
+      destruct (e_dumper (o_ext o)) as [b|] eqn:ED; [|now rewrite opn_eqb_refl].
+      simpl in X2. pose proof (nth_error_lt _ _ _ X2) as Hb. rewrite Lj in Hb.
+      destruct (e_dopt (o_ext o)) as [a0|] eqn:EDo.
+      * cbn [bx_get] in G. injection G as <- <-. simpl opn_eqb.
+        destruct (Nat.eqb_spec a0 b); auto. rewrite Nb; auto.
+      * simpl opn_eqb. pose proof (Nn b eq_refl Hb) as Nab.
+        destruct (Nat.eqb_spec a b); [congruence|]. rewrite Nb; auto.
+  - (* SDumpDisable *)
+    injection Hs as <- <-. destruct O5 as (X1 & X2 & X3).
+    eapply sim_res_eq; [apply (sim_res_pure id H ow o (set_ext o (set_dumper (o_ext o) None))); auto|reflexivity].
+    repeat split; simpl; auto.
+  - (* SDumpSetOpts *)
+    destruct O5 as (X1 & X2 & X3). cbn [vapply]. injection Hs as <- <-.
+    destruct (bx_new_spec (jars H) (owJ ow) (id, 1) l Lj) as (L1 & T1 & R1 & F1).
+    destruct (bx_ok_frame _ _ _ [(id, 1)] _ _ _ X3 F1 (fun x : False => x)) as (A3 & B3 & _).
+    apply (sim_ext H ow id o _ [(id, 1)]); auto.
+    + now apply frame12_none.
+    + repeat split; auto. cbn [set_dumper set_dopt e_dumper e_dopt]. destruct (e_dumper (o_ext o)); simpl; auto.
+    + cbn [abs_obj v_ext]. unfold abs_ext, xset_dumper, xset_dopt, set_dumper, set_dopt.
+      cbn [e_dopt e_dumper e_tls x_dopt x_dumper x_tls bx_read]. rewrite R1, B3. f_equal.
+      destruct (e_dumper (o_ext o)) as [b|]; [|reflexivity]. rewrite opn_eqb_refl. destruct (opn_eqb _ _); reflexivity.
+  - (* SDumpTransport *)
+    destruct O5 as (X1 & X2 & X3). cbn [vapply]. injection Hs as <- <-.
+    destruct (bx_new_spec (jars H) (owJ ow) (id, 1) l Lj) as (L1 & T1 & R1 & F1).
+    destruct (bx_ok_frame _ _ _ [(id, 1)] _ _ _ X1 F1 (fun x : False => x)) as (A1 & B1 & _).
+    destruct (bx_ok_frame _ _ _ [(id, 1)] _ _ _ X3 F1 (fun x : False => x)) as (A3 & B3 & _).
+    apply (sim_ext H ow id o _ [(id, 1)]); auto.
+    + now apply frame12_none.
+    + repeat split; auto.
+    + cbn [abs_obj v_ext]. unfold abs_ext, xset_dumper, set_dumper.
+      cbn [e_dopt e_dumper e_tls x_dopt x_dumper x_tls]. rewrite R1, B1, B3. f_equal.
+      destruct (e_dopt (o_ext o)) as [a0|] eqn:EDo; [|reflexivity]. simpl in X1.
+      pose proof (nth_error_lt _ _ _ X1) as Ha. rewrite Lj in Ha. simpl.
+      destruct (Nat.eqb_spec a0 (length (jars H))); [lia|reflexivity].
 Qed.
